@@ -22,6 +22,8 @@ GoodStart(g) == /\ Len(g.tr) > 0 /\ WellFormedGraph(g) /\ g.top \in Sources(g) /
                 \* O14: at most one role of an ambiguous reification (AMR :subset / :superset share include-91 with mirrored
                 \* arguments, so (a :subset b) and (b :superset a) state one relation twice and coincide after reify + dereify)
                 /\ Cardinality({r \in {g.tr[i][2] : i \in DOMAIN g.tr} : Reifiable(M, r) /\ ~Unambiguous(M, {r})}) <= 1
+                \* O15: no relation stated twice, once directly and once as a collapsible reified node (dereifying would repeat it)
+                /\ LET d == DereifyEdges(g, M).tr IN \A i, j \in DOMAIN d : i # j => d[i] # d[j]
 \* encode of a logged graph: tree, re-parse, re-decode
 EncOK(g, e) ==
     IF ~e.ok THEN "encode-raised " \o e.exc
@@ -70,7 +72,7 @@ InvBad ==
     IF T.exc # "" THEN "raised " \o T.exc
     ELSE LET g == LG(T.g)  g1 == LG(T.g1)  g2 == LG(T.g2)
              nre == Cardinality({i \in DOMAIN g.tr : Reifiable(M, g.tr[i][2])})
-             syms == Sources(g) \cup {g.tr[i][3] : i \in {j \in DOMAIN g.tr : g.tr[j][2] # ConceptRole}}
+             syms == Sources(g) \cup {g.tr[i][3] : i \in DOMAIN g.tr}
              newv == Vars(g1) \ Vars(g)
          IN FirstFailS(<<
             <<"no-reifiable-role-left", \A i \in DOMAIN g1.tr : ~Reifiable(M, g1.tr[i][2])>>,
@@ -104,7 +106,8 @@ Start == /\ k = 0 /\ verdict[1] = "pending"
             ELSE IF T.kind = "inverse"
             THEN (IF ~InvPre THEN verdict' = <<"NA", "collapsible node present, ambiguous table or start not well-formed">>
                   ELSE IF InvBad # "" THEN verdict' = <<"REJECT", InvBad>> ELSE verdict' = Acc) /\ k' = k
-            ELSE (IF ~WellFormedGraph(LG(T.g)) THEN verdict' = <<"NA", "graph not well-formed">>
+            ELSE (IF ~WellFormedGraph(LG(T.g)) \/ (LET d == DereifyEdges(LG(T.g), M).tr IN \E i, j \in DOMAIN d : i # j /\ d[i] = d[j])
+                  THEN verdict' = <<"NA", "graph not well-formed, or a relation is stated both directly and reified (O15)">>
                   ELSE IF DerBad # "" THEN verdict' = <<"REJECT", DerBad>> ELSE verdict' = Acc) /\ k' = k
          /\ UNCHANGED <<tid, exact>>
 Prog == /\ k >= 1 /\ verdict[1] = "pending"
